@@ -240,6 +240,9 @@ func generate(family string, n int, seed uint64, out *bufio.Writer) {
 			mode := "keep"
 			if r.chance(1, 2) {
 				mode = "clear"
+				if r.chance(1, 3) {
+					mode = "trunc"
+				}
 			}
 			p("reenc %s %s %s %d", kind, hexs(top.enc()), mode, 1+r.intn(3))
 		}
@@ -324,6 +327,7 @@ func generate(family string, n int, seed uint64, out *bufio.Writer) {
 			genCSOp(r, gcfg, wcfg, p)
 		}
 	case "he":
+		genHEFixed(p)
 		for i := 0; i < n; i++ {
 			genHEOp(r, gcfg, wcfg, p)
 		}
@@ -620,4 +624,44 @@ func genHEOp(r *rng, c, wc *genCfg, p func(string, ...any)) {
 	}
 	s, v := signerSpec(r, signAlg(r, &h))
 	p("he %s %d %s %s %s %s %s", htext, hashAlg, hv_, pct, loc, s, v)
+}
+
+// hash-envelope cases that do not depend on the sampled budget: the base protected map already
+// holds one of the governed labels (in every Go spelling, with the requested or another value),
+// with and without alg, content type / location requested or not; caller-supplied raw buckets
+// together with a typed map that disagrees with them.
+func genHEFixed(p func(string, ...any)) {
+	h32 := strings.Repeat("00", 32)
+	for _, sp := range []string{"i64", "i", "i16", "u16", "u64"} {
+		for _, v := range []string{"a:-16", "i64:-16", "i:-16", "a:-43", "s:" + hexs([]byte("sha"))} {
+			for _, algEntry := range []string{"", ",i64:1=a:-7"} {
+				for _, pl := range [][2]string{{"-", "-"}, {"s:" + hexs([]byte("a/b")), "-"}, {"-", hexs([]byte("urn:x"))}} {
+					p("he H(-;{%s:258=%s%s};-;{}) -16 %s %s %s T:-7:1 T:-7:1", sp, v, algEntry, h32, pl[0], pl[1])
+				}
+			}
+		}
+		p("he H(-;{%s:259=s:%s};-;{}) -16 %s - - T:-7:1 T:-7:1", sp, hexs([]byte("a/b")), h32)
+		p("he H(-;{%s:260=s:%s};-;{}) -16 %s - - T:-7:1 T:-7:1", sp, hexs([]byte("urn:x")), h32)
+		p("he H(-;{%s:259=i64:50};-;{}) -16 %s i64:50 - T:-7:1 T:-7:1", sp, h32)
+	}
+	rawU := func(l int64) string { return hexs(wMap(wInt(l), wBstr([]byte{1})).enc()) }
+	rawP := hexs(wBstr(wMap(wInt(1), wInt(-7)).enc()).enc())
+	rawPbig := hexs(wBstr(wMap(wInt(1), wInt(-36)).enc()).enc())
+	for _, l := range []int64{4, 3, 258, 259, 260} {
+		for _, typed := range []string{"{}", "{i64:4=b:01}", "{i64:99=i64:1}", fmt.Sprintf("{i64:%d=b:01}", l)} {
+			p("he H(-;{};%s;%s) -16 %s - - T:-7:1 T:-7:1", rawU(l), typed, h32)
+			p("he H(%s;{i64:1=a:-7};%s;%s) -16 %s - - T:-7:1 T:-7:1", rawP, rawU(l), typed, h32)
+		}
+	}
+	// caller-supplied raw protected bytes never reach the envelope: the typed map is what is signed
+	p("he H(%s;{i64:1=a:-7};-;{}) -16 %s - - T:-7:1 T:-7:1", rawPbig, h32)
+	p("he H(%s;{};-;{}) -16 %s - - T:-7:1 T:-7:1", rawPbig, h32)
+	p("he H(%s;{i64:1=a:-7};-;{}) -16 %s s:%s %s T:-7:1 T:-7:1", rawP, h32, hexs([]byte("a/b")), hexs([]byte("urn:x")))
+	// payload hash algorithms the library has no size for (no length check), with verifiers that
+	// refuse: the verifier's error is returned
+	for _, a := range []int64{-14, -15, -17, -18, -45, 0, 7, -65535} {
+		for _, v := range []string{"T:-7:1", "T:-7:2", "F:-7:err"} {
+			p("he H(-;{};-;{}) %d %s - - T:-7:1 %s", a, strings.Repeat("00", 20), v)
+		}
+	}
 }
